@@ -4,10 +4,12 @@ import Nsq.Model.GateRegex
 /-!
 Driver for engine `gate` (property C11). One op per line in, one canonical line out.
 
-  cfg <tlsreq 0|1|2> <policy-hex> <cert 0|1> <authAddrs>        new nsqd: resets broker and connections
+  cfg <tlsreq 0|1|2> <policy-hex> <cert 0|1> <authAddrs> <max-body-size> <max-msg-size>   new nsqd: resets broker and connections
   http <tlsListener 0|1>                                        the HTTP TLS gate of the current config
   conn <id>                                                     a fresh connection
   c <id> <now> <ans> <CMD> …                                    one command on a connection
+  cx <id> <now> <ans> <CMD> …                                   one command, then the client disconnects
+  x <id>                                                        the client disconnects
   ia <grants> <topic-hex> <chan-hex>                            State.IsAllowed
   rx <pat-hex> <text-hex>                                       regexp family used by the harness
 
@@ -125,9 +127,9 @@ structure DState where
   broker : Broker
   conns : List (Nat × Conn)
 
-def defaultOpts (tr : TlsReq) (pol : String) (cert : Bool) (auth : Nat) : Options :=
+def defaultOpts (tr : TlsReq) (pol : String) (cert : Bool) (auth : Nat) (maxBody maxMsg : Int) : Options :=
   { tlsRequired := tr, clientAuthPolicy := pol, hasCert := cert, authAddrs := auth,
-    maxBodySize := 5 * 1024 * 1024, maxMsgSize := 1024 * 1024, maxReqTimeoutNs := 3600 * 1000000000 }
+    maxBodySize := maxBody, maxMsgSize := maxMsg, maxReqTimeoutNs := 3600 * 1000000000 }
 
 def lookupConn (id : Nat) : List (Nat × Conn) → Option Conn
   | [] => none
@@ -144,17 +146,17 @@ def showReq : TlsReq → String
 
 def stepLine (st : DState) (line : String) : DState × String :=
   match words line with
-  | ["cfg", tr, pol, cert, auth] =>
+  | ["cfg", tr, pol, cert, auth, maxBody, maxMsg] =>
     let tr? : Option TlsReq := if tr = "0" then some .no else if tr = "1" then some .exceptHTTP
       else if tr = "2" then some .yes else none
-    match tr?, unhexS pol, parseBool cert, auth.toNat? with
-    | some tr, some pol, some cert, some auth =>
-      match mkConfig (defaultOpts tr pol cert auth) with
+    match tr?, unhexS pol, parseBool cert, auth.toNat?, maxBody.toInt?, maxMsg.toInt? with
+    | some tr, some pol, some cert, some auth, some maxBody, some maxMsg =>
+      match mkConfig (defaultOpts tr pol cert auth maxBody maxMsg) with
       | none => ({ cfg := none, broker := [], conns := [] }, "cfg err")
       | some cfg =>
         ({ cfg := some cfg, broker := [], conns := [] },
          s!"cfg ok eff={showReq cfg.tlsRequired} pol={showPol cfg.certPolicy} tls={b01 cfg.hasTls} auth={b01 cfg.authEnabled}")
-    | _, _, _, _ => (st, "bad-op")
+    | _, _, _, _, _, _ => (st, "bad-op")
   | ["http", l] =>
     match st.cfg, parseBool l with
     | some cfg, some l => (st, if httpGate cfg l = .forbidden403 then "403" else "routed")
@@ -173,6 +175,26 @@ def stepLine (st : DState) (line : String) : DState × String :=
         ({ st with broker := r.broker, conns := setConn id r.conn st.conns },
          s!"{"|".intercalate (r.replies.map showReply)} close={b01 r.close} q={showQuery r.query} tls={b01 r.conn.tls} st={showState r.conn.state} authed={b01 (hasAuthorizations r.conn)} broker={showBroker r.broker}")
     | _, _, _, _, _ => (st, "bad-op")
+  | "cx" :: id :: now :: ans :: cmd =>
+    match st.cfg, id.toNat?, now.toInt?, parseAns ans, parseCmd cmd with
+    | some cfg, some id, some now, some ans, some cmd =>
+      match lookupConn id st.conns with
+      | none => (st, "bad-op")
+      | some c =>
+        let r := step driverExt cfg Nsq.Model.GateRegex.matcher (fun _ => ans) now c st.broker cmd
+        let d := disconnect r.conn r.broker
+        ({ st with broker := d.2, conns := setConn id d.1 st.conns },
+         s!"{"|".intercalate (r.replies.map showReply)} close={b01 r.close} q={showQuery r.query} tls={b01 r.conn.tls} st={showState r.conn.state} authed={b01 (hasAuthorizations r.conn)} broker={showBroker d.2}")
+    | _, _, _, _, _ => (st, "bad-op")
+  | ["x", id] =>
+    match id.toNat? with
+    | some id =>
+      match lookupConn id st.conns with
+      | none => (st, "bad-op")
+      | some c =>
+        let d := disconnect c st.broker
+        ({ st with broker := d.2, conns := setConn id d.1 st.conns }, s!"x broker={showBroker d.2}")
+    | none => (st, "bad-op")
   | ["ia", gs, t, c] =>
     match parseGrants gs, unhexS t, unhexS c with
     | some gs, some t, some c => (st, b01 (isAllowed Nsq.Model.GateRegex.matcher t c gs))
